@@ -118,3 +118,82 @@ def spec_is_tree(S):
             uses[x] = uses.get(x, 0) + 1
     prod = set(o for u in S["user_instrs"] for o in u.get("outpt_sk", []))
     return all(uses.get(v, 0) <= 1 for v in prod)
+
+
+# ---- block-level gas under the access-list convention (independent symbolic executor)
+# Assumptions (stated in every evidence file that uses them): EXP is priced with a one-byte
+# exponent (10 + 50), KECCAK256 / copies / logs without their per-word and per-byte parts,
+# SSTORE as a reset (2900) plus the cold surcharge, CALL-family 100; within a block the first
+# access to a syntactically identical storage key / account is cold, later ones warm.
+STATIC = dict(GAS)
+STATIC.update({"EXP": 60, "CALL": 100, "CALLCODE": 100, "DELEGATECALL": 100, "STATICCALL": 100, "INVALID": 0,
+               "ASSIGNIMMUTABLE": 0, "SELFDESTRUCT": 5000, "EXTCODECOPY": None, "BALANCE": None, "EXTCODESIZE": None,
+               "EXTCODEHASH": None, "SLOAD": None, "SSTORE": None})
+ACCOUNT_KEYED = ("BALANCE", "EXTCODESIZE", "EXTCODEHASH", "EXTCODECOPY")
+
+
+def symbolic_gas(instrs, push0=True):
+    need, _ = evm.need_and_delta(instrs)
+    st = [("in", i) for i in reversed(range(need))]          # top = last
+    slots, accounts = set(), set()
+    total = 0
+    for name, arg in instrs:
+        top = st[-1] if st else None
+        if name == "SLOAD":
+            total += 100 if top in slots else 2100
+            slots.add(top)
+        elif name == "SSTORE":
+            total += (0 if top in slots else 2100) + 2900
+            slots.add(top)
+        elif name in ACCOUNT_KEYED:
+            total += 100 if top in accounts else 2600
+            accounts.add(top)
+        elif name == "PUSH":
+            total += 2 if (arg == 0 and push0) else 3
+        elif name == "PUSH0":
+            total += 2
+        elif name.startswith("PUSH") or name.startswith("DUP") or name.startswith("SWAP"):
+            total += 3
+        else:
+            total += STATIC[name]
+        # symbolic effect
+        if name.startswith("DUP"):
+            st.append(st[-int(name[3:])])
+        elif name.startswith("SWAP"):
+            k = int(name[4:])
+            st[-1], st[-k - 1] = st[-k - 1], st[-1]
+        else:
+            a, p = evm.ARITY[name]
+            ops = tuple(st.pop() for _ in range(a))
+            if p:
+                if name == "PUSH":
+                    st.append(("c", arg))
+                elif a == 0:
+                    st.append((name, evm.pseudo_key(name, arg) if arg is not None else None))
+                else:
+                    st.append((name,) + ops)
+    return total
+
+
+def block_figures(instrs, push0=True):
+    """(gas, size, length) of a full basic block (tags and terminals included)"""
+    return symbolic_gas(instrs, push0), sum(item_size(i, push0) for i in instrs), sum(1 for i in instrs if i[0] != "tag")
+
+
+def improves(criterion, old, new):
+    """the documented acceptance rule, restated: strictly better in the criterion, or equal in it,
+    no worse in the others and strictly better in at least one of them"""
+    g0, s0, l0 = old
+    g1, s1, l1 = new
+    sg, ss, sl = g0 - g1, s0 - s1, l0 - l1
+    if criterion == "size":
+        main, others = ss, (sg,)
+    elif criterion == "length":
+        main, others = sl, (sg, ss)
+    else:
+        main, others = sg, (ss,)
+    if main > 0:
+        return True
+    if main < 0:
+        return False
+    return all(o >= 0 for o in others) and any(o > 0 for o in others)
